@@ -70,6 +70,8 @@ func VerifH_rr() {
 	verifRRWorld, verifRRCtx, verifRRTarget = w, ctx, want
 	verifRRBudget = verifCase("interference")
 	verifRRBlocks = 0
+	verifRRGrew, verifRRRLocks = false, 0
+	verifResetLocks()
 	for j := 0; j < vR; j++ {
 		verifRRStreams[j] = pre.streams[j]
 	}
@@ -167,4 +169,26 @@ func verifAtomicLoadI32(p *int32) int32 {
 		return verifI32("atomicLoad@")
 	}
 	return atomic.LoadInt32(p)
+}
+
+// Between two acquisitions of gb.mu inside one round-robin pick (the snapshot of the channel list and
+// the wait), other picks may have grown the pool: the channel list gets one more channel.  (Once per
+// pick; the list a pick works on is the snapshot it took.)
+var (
+	verifRRGrew   bool
+	verifRRRLocks int
+)
+
+func verifOnLockRR() {
+	if verifRRGrew || !verifBool("poolGrewMeanwhile") {
+		return
+	}
+	verifRRGrew = true
+	w := verifRRWorld
+	for j := 0; j < vR; j++ {
+		if !w.listed(w.refs[j]) {
+			w.gb.scRefList = append(w.gb.scRefList, w.refs[j])
+			return
+		}
+	}
 }
